@@ -196,4 +196,265 @@ theorem after1_spec (c : α → α → Ordering) [Std.TransCmp c] (t : T α) (ho
   | nil => rfl
   | cons y ys => simp [collect]
 
+/-! ## registers -/
+
+theorem regs_get_set {σ : Type} (rs : Regs σ) (r r' : Nat) (v : σ) :
+    (rs.set r v).get r' = if r' = r then some v else rs.get r' := by
+  unfold Regs.set Regs.get
+  by_cases h : r' = r
+  · subst h; simp
+  · have hne : (r == r') = false := by simpa using (fun e => h e.symm)
+    simp only [List.find?_cons, hne, h, if_false]
+    congr 1
+    induction rs with
+    | nil => rfl
+    | cons a rs ih =>
+      simp only [List.filter_cons, List.find?_cons]
+      by_cases ha : a.1 = r
+      · simp [ha, hne, ih]
+      · have : (a.1 != r) = true := by simpa using ha
+        simp only [this, if_true, List.find?_cons]
+        split <;> simp [ih]
+
+theorem staleAll_get {K V : Type} (its : Regs (Omap.It K V)) (i : Nat) :
+    (Omap.staleAll its).get i = (its.get i).map (fun _ => Omap.It.stale) := by
+  unfold Omap.staleAll Regs.get
+  induction its with
+  | nil => rfl
+  | cons a its ih =>
+    simp only [List.map_cons, List.find?_cons]
+    split <;> simp_all
+
+theorem sStaleAll_get (its : Regs AssocRef.SIt) (i : Nat) :
+    (AssocRef.staleAll its).get i = (its.get i).map (fun _ => AssocRef.SIt.stale) := by
+  unfold AssocRef.staleAll Regs.get
+  induction its with
+  | nil => rfl
+  | cons a its ih =>
+    simp only [List.map_cons, List.find?_cons]
+    split <;> simp_all
+
+/-! ## the simulation relation -/
+
+section
+variable {K V : Type} (cmp : K → K → Ordering)
+
+instance kvTrans [Std.TransCmp cmp] : Std.TransCmp (Omap.kvCmp (V := V) cmp) where
+  eq_swap := Std.OrientedCmp.eq_swap (cmp := cmp)
+  isLE_trans := Std.TransCmp.isLE_trans (cmp := cmp)
+
+theorem insert_eq (k : K) (v : V) (l : List (K × V)) :
+    CursorRef.insertKey (Omap.kvCmp cmp) true (k, v) l = AssocRef.insert cmp k v l := by
+  induction l with
+  | nil => rfl
+  | cons a l ih =>
+    obtain ⟨x, w⟩ := a
+    simp only [CursorRef.insertKey, AssocRef.insert, Omap.kvCmp]
+    cases cmp k x <;> simp [ih]
+
+theorem erase_eq [Inhabited V] (k : K) (l : List (K × V)) :
+    CursorRef.removeKey (Omap.kvCmp cmp) (k, default) l = AssocRef.erase cmp k l := by
+  induction l with
+  | nil => rfl
+  | cons a l ih =>
+    obtain ⟨x, w⟩ := a
+    simp only [CursorRef.removeKey, AssocRef.erase, Omap.kvCmp]
+    cases cmp k x <;> simp [ih]
+
+theorem lookup_eq [Inhabited V] (k : K) (l : List (K × V)) :
+    AssocRef.lookup cmp k l = (l.find? (fun y => Omap.kvCmp cmp (k, (default : V)) y == .eq)).map (·.2) := by
+  induction l with
+  | nil => rfl
+  | cons a l ih =>
+    obtain ⟨x, w⟩ := a
+    simp only [AssocRef.lookup, List.find?_cons, Omap.kvCmp] at ih ⊢
+    cases hc : cmp k x <;> simp [ih]
+
+theorem lowerBound_eq [Inhabited V] (k : K) (l : List (K × V)) :
+    AssocRef.lowerBound cmp k l =
+      (l.takeWhile (fun y => Omap.kvCmp cmp y (k, (default : V)) == .lt)).length := by
+  induction l with
+  | nil => rfl
+  | cons a l ih =>
+    obtain ⟨x, w⟩ := a
+    simp only [AssocRef.lowerBound, List.takeWhile_cons, Omap.kvCmp] at ih ⊢
+    cases hc : cmp x k <;> simp [ih]
+
+/-- iterator registers: stale with stale, invalid with invalid, a position with its index -/
+inductive RelIt (root : Tree (K × V)) : Omap.It K V → AssocRef.SIt → Prop
+  | stale : RelIt root .stale .stale
+  | none : RelIt root (.live none) (.at none)
+  | pos (p : Pos (K × V)) (i : Nat) (hw : p.WF) (hr : p.root = root) (hi : p.before.length = i) :
+      RelIt root (.live (some p)) (.at (some i))
+
+inductive RelOpt {A B : Type} (R : A → B → Prop) : Option A → Option B → Prop
+  | none : RelOpt R none none
+  | some {a b} : R a b → RelOpt R (some a) (some b)
+
+def rootOf : Omap.Map K V → Tree (K × V)
+  | none => .nil
+  | some t => t.root
+
+def RelMap (m : Omap.Map K V) (l : Option (List (K × V))) : Prop :=
+  (m = none ∧ l = none) ∨ ∃ t, m = some t ∧ TWF (Omap.kvCmp cmp) t ∧ l = some t.root.toList
+
+structure Rel (s : Omap.State K V) (a : AssocRef.S K V) : Prop where
+  map : RelMap cmp s.m a.l
+  its : ∀ i, RelOpt (RelIt (rootOf s.m)) (s.its.get i) (a.its.get i)
+
+theorem relMap_list {m : Omap.Map K V} {l : Option (List (K × V))} (h : RelMap cmp m l) :
+    l.getD [] = (rootOf m).toList := by
+  rcases h with ⟨rfl, rfl⟩ | ⟨t, rfl, _, rfl⟩ <;> rfl
+
+theorem relIt_read {root : Tree (K × V)} {c : Cursor (K × V)} {oi : Option Nat}
+    (h : RelIt root (.live c) (.at oi)) : (Omap.Out.iter (key? c) : Omap.Out K V) = AssocRef.readAt root.toList oi := by
+  cases h with
+  | none => rfl
+  | pos p i hw hr hi => subst hr; subst hi; simp [AssocRef.readAt, (key_at p hw).1]
+
+theorem relIts_stale {root root' : Tree (K × V)} {mi : Regs (Omap.It K V)} {si : Regs AssocRef.SIt}
+    (h : ∀ i, RelOpt (RelIt root) (mi.get i) (si.get i)) :
+    ∀ i, RelOpt (RelIt root') ((Omap.staleAll mi).get i) ((AssocRef.staleAll si).get i) := by
+  intro i
+  rw [staleAll_get, sStaleAll_get]
+  have hi := h i
+  revert hi
+  generalize Regs.get mi i = a
+  generalize Regs.get si i = b
+  intro hi
+  cases hi with
+  | none => exact .none
+  | some _ => exact .some .stale
+
+theorem relIts_set {root : Tree (K × V)} {mi : Regs (Omap.It K V)} {si : Regs AssocRef.SIt}
+    (h : ∀ i, RelOpt (RelIt root) (mi.get i) (si.get i)) (j : Nat) {a : Omap.It K V} {b : AssocRef.SIt}
+    (hab : RelIt root a b) : ∀ i, RelOpt (RelIt root) ((mi.set j a).get i) ((si.set j b).get i) := by
+  intro i
+  rw [regs_get_set, regs_get_set]
+  split
+  · exact .some hab
+  · exact h i
+
+/-! ### positions -/
+
+variable [Std.TransCmp cmp] [Inhabited V]
+
+theorem first_rel {m : Omap.Map K V} {l : Option (List (K × V))} (h : RelMap cmp m l) :
+    RelIt (rootOf m) (.live (Omap.first m)) (.at (AssocRef.norm (l.getD []).length 0)) := by
+  rw [relMap_list cmp h]
+  rcases h with ⟨rfl, rfl⟩ | ⟨t, rfl, _, rfl⟩
+  · exact .none
+  · rcases first_spec t.root with ⟨hn, hf⟩ | ⟨p, hf, hw, hr, hb⟩
+    · simp only [Omap.first, hf, rootOf, hn, Tree.toList, AssocRef.norm]; exact .none
+    · have := (key_at p hw).2
+      rw [hr] at this
+      simp only [Omap.first, hf, rootOf]
+      have h0 : 0 < t.root.toList.length := by omega
+      rw [show AssocRef.norm t.root.toList.length 0 = some 0 by simp only [AssocRef.norm, h0, if_true]]
+      exact .pos p 0 hw hr (by simp [hb])
+
+theorem last_rel {m : Omap.Map K V} {l : Option (List (K × V))} (h : RelMap cmp m l) :
+    RelIt (rootOf m) (.live (Omap.last m))
+      (.at (if (l.getD []).length = 0 then none else some ((l.getD []).length - 1))) := by
+  rw [relMap_list cmp h]
+  rcases h with ⟨rfl, rfl⟩ | ⟨t, rfl, _, rfl⟩
+  · exact .none
+  · rcases last_spec t.root with ⟨hn, hf⟩ | ⟨p, hf, hw, hr, ha⟩
+    · simp only [Omap.last, hf, rootOf, hn, Tree.toList]; exact .none
+    · have := (key_at p hw).2
+      rw [hr, ha] at this
+      simp only [List.length_nil, Nat.add_zero] at this
+      simp only [Omap.last, hf, rootOf]
+      have hn : ¬ t.root.toList.length = 0 := by omega
+      show RelIt t.root _ (.at (if t.root.toList.length = 0 then none else some (t.root.toList.length - 1)))
+      rw [if_neg hn]
+      exact .pos p _ hw hr (by omega)
+
+theorem ordered_nodup {c : α → α → Ordering} [Std.TransCmp c] {t : Tree α} (ho : Ordered c t) : t.toList.Nodup := by
+  unfold Ordered at ho
+  refine ho.imp (fun {a b} h e => ?_)
+  subst e
+  have hr : c a a = .eq := Std.ReflCmp.compare_self
+  rw [hr] at h; cases h
+
+theorem seek_rel {m : Omap.Map K V} {l : Option (List (K × V))} (h : RelMap cmp m l) (k : K) :
+    RelIt (rootOf m) (.live (Omap.seek cmp m k))
+      (.at (AssocRef.norm (l.getD []).length (AssocRef.lowerBound cmp k (l.getD [])))) := by
+  rw [relMap_list cmp h]
+  rcases h with ⟨rfl, rfl⟩ | ⟨t, rfl, ⟨ho, _⟩, rfl⟩
+  · exact .none
+  · simp only [Omap.seek, rootOf, after1_spec (Omap.kvCmp cmp) t ho, lowerBound_eq]
+    have hsplit := List.takeWhile_append_dropWhile (p := fun y => Omap.kvCmp cmp y (k, (default : V)) == .lt) (l := t.root.toList)
+    generalize hT : t.root.toList.takeWhile (fun y => Omap.kvCmp cmp y (k, (default : V)) == .lt) = Tk at hsplit ⊢
+    generalize hD : t.root.toList.dropWhile (fun y => Omap.kvCmp cmp y (k, (default : V)) == .lt) = D at hsplit ⊢
+    cases D with
+    | nil =>
+      have : Tk.length = t.root.toList.length := by rw [← hsplit]; simp
+      simp only [List.take_nil, AssocRef.norm, this, Nat.lt_irrefl, if_false]
+      exact .none
+    | cons kv rest =>
+      have hmem : kv ∈ t.root.toList := by rw [← hsplit]; simp
+      have hrefl : Omap.kvCmp cmp kv kv = .eq := Std.ReflCmp.compare_self
+      have hv := (ofKey_valid_iff (Omap.kvCmp cmp) t.root ho kv).mpr ⟨kv, hmem, hrefl⟩
+      simp only [List.take_succ_cons, List.take_zero]
+      cases hof : ofKey (Omap.kvCmp cmp) t.root kv with
+      | none => rw [hof] at hv; simp [valid] at hv
+      | some p =>
+        obtain ⟨hr, hw, x, hx, he, hxm⟩ := ofKey_some (Omap.kvCmp cmp) t.root kv hof
+        have hxkv : x = kv := ho.unique hxm hmem he hrefl
+        subst hxkv
+        have hka := key_at p hw
+        rw [hr] at hka
+        have hidx : t.root.toList[Tk.length]? = some x := by rw [← hsplit]; simp
+        have hlt : p.before.length < t.root.toList.length := by omega
+        have heq : p.before.length = Tk.length :=
+          (List.getElem?_inj hlt (ordered_nodup ho)).mp (by rw [← hka.1, hx, hidx])
+        have hlt' : Tk.length < t.root.toList.length := by omega
+        simp only [AssocRef.norm, hlt', if_true]
+        exact .pos p _ hw hr heq
+
+theorem next_rel {root : Tree (K × V)} {c : Cursor (K × V)} {oi : Option Nat}
+    (h : RelIt root (.live c) (.at oi)) :
+    RelIt root (.live (next c)) (.at (oi.bind fun j => AssocRef.norm root.toList.length (j + 1))) := by
+  cases h with
+  | none => exact .none
+  | pos p i hw hr hi =>
+    obtain ⟨l, x, r, hc⟩ := isNil_eq_false.mp hw
+    have hlen := (key_at p hw).2
+    rw [hr] at hlen
+    simp only [Option.bind_some]
+    rcases next_spec p l r x hc with ⟨ha, hn⟩ | ⟨p', y, hn, hw', hr', _, ha, hb⟩
+    · rw [hn]
+      rw [ha] at hlen
+      simp only [List.length_nil, Nat.add_zero] at hlen
+      have hge : ¬ (i + 1 < root.toList.length) := by omega
+      rw [show AssocRef.norm root.toList.length (i + 1) = none by simp only [AssocRef.norm, hge, if_false]]
+      exact .none
+    · rw [hn]
+      rw [ha] at hlen
+      simp only [List.length_cons] at hlen
+      have hlt : i + 1 < root.toList.length := by omega
+      rw [show AssocRef.norm root.toList.length (i + 1) = some (i + 1) by simp only [AssocRef.norm, hlt, if_true]]
+      exact .pos p' _ hw' (hr'.trans hr) (by rw [hb]; simp [hi])
+
+theorem prev_rel {root : Tree (K × V)} {c : Cursor (K × V)} {oi : Option Nat}
+    (h : RelIt root (.live c) (.at oi)) :
+    RelIt root (.live (prev c)) (.at (oi.bind fun j => if j = 0 then none else some (j - 1))) := by
+  cases h with
+  | none => exact .none
+  | pos p i hw hr hi =>
+    obtain ⟨l, x, r, hc⟩ := isNil_eq_false.mp hw
+    simp only [Option.bind_some]
+    rcases prev_spec p l r x hc with ⟨hb, hn⟩ | ⟨p', y, hn, hw', hr', _, hb, _⟩
+    · rw [hn]
+      rw [hb] at hi
+      rw [if_pos (by simpa using hi.symm)]
+      exact .none
+    · rw [hn]
+      rw [hb] at hi
+      rw [if_neg (by simp at hi; omega)]
+      exact .pos p' _ hw' (hr'.trans hr) (by simp at hi; omega)
+
+end
+
 end MdsVerif.Proofs.Omap
